@@ -56,7 +56,22 @@ OPEN = [
     ('C06', 'C06.R1', 'SymtableCodeGen.genDefVal/_importMap<-defval',
      'F25: a DEFVAL label is looked up as written (with hyphens) in tables keyed by normalised names, so a valid `DEFVAL { d-root }` on an OBJECT IDENTIFIER object is rejected (enum labels are unaffected: they are compared with the enumeration); not repaired: normalising the label also changes how enum/bit labels containing hyphens are matched',
      'module D-MIB: `d-root OBJECT IDENTIFIER ::= { enterprises 6 }` and `dObj OBJECT-TYPE SYNTAX OBJECT IDENTIFIER ... DEFVAL { d-root }` -> PySmiSemanticError unknown type ... for defval d-root'),
+    ('C04', 'C04.R5', 'import-strings-normalised',
+     'F24: generated pysnmp modules export symbols under the normalised name (a_root) but import them from other '
+     'generated modules under the MIB spelling ("a-root"), so a module set with hyphenated cross-module symbols does '
+     'not load together; not repaired: the right spelling depends on what pysnmp\'s own MIB modules export',
+     'A-MIB defines a-root, B-MIB imports it: A exports **{"a_root": a_root}, B runs importSymbols("A-MIB", "a-root")'),
 ]
+
+F27_SITES = ['template-literal dq/default.value@macro:default', 'template-literal dq/displayhint@textualconvention', 'template-literal dq/lastupdated@moduleidentity', 'template-literal dq/productrelease@agentcapabilities', 'template-literal dq/reference@agentcapabilities', 'template-literal dq/units@objecttype+objectidentity', 'template-literal tq/contactinfo|wordwrap@moduleidentity', 'template-literal tq/description|wordwrap@agentcapabilities', 'template-literal tq/description|wordwrap@modulecompliance', 'template-literal tq/description|wordwrap@moduleidentity', 'template-literal tq/description|wordwrap@notificationgroup', 'template-literal tq/description|wordwrap@notificationtype', 'template-literal tq/description|wordwrap@objectgroup', 'template-literal tq/description|wordwrap@objecttype+objectidentity', 'template-literal tq/description|wordwrap@textualconvention', 'template-literal tq/organization|wordwrap@moduleidentity', 'template-literal tq/reference|wordwrap@objecttype+objectidentity']
+for _k in F27_SITES:
+    OPEN.append(('C15', 'C15.R4', _k,
+                 'F27: the pysnmp template places this text inside a Python string literal without escaping: a '
+                 'backslash sequence is interpreted (UNITS "C:\\new" -> newline), a triple quote or, in one-line '
+                 'literals with --keep-texts-layout, a line break yields invalid Python; not repaired: needs an '
+                 'escaping filter plus a decision on wordwrap for all 17 sites',
+                 'OBJECT-TYPE ... UNITS "C:\\new\\table": generated o.setUnits("C:\\new\\table") evaluates to a string with '
+                 'a newline and a tab'))
 
 # (property, commit, what failed, rule that reports it on the pre-fix tree)
 FIXED = [
@@ -85,6 +100,8 @@ FIXED = [
     ('C11', 'fb9f725', 'F33 a decimal literal longer than 4300 digits made t_NUMBER raise ValueError', 'C11.R7'),
     ('C05', 'd5fde45', 'F34 DEFVAL { 0 } dropped by a truthiness test in p_DefValPart', 'C02.R1'),
     ('C02', '7a6965a', 'F39 compliance list actions skipped a GROUP whose identifier is the number 0', 'C02.R1'),
+    ('C15', '0887a9a', 'F41 DISPLAY-HINT and PRODUCT-RELEASE texts bypassed the text filter (multi-line text -> '
+     'invalid one-line literal, not whitespace-normalised in JSON)', 'C15.R3'),
     ('C10', '121bb88', 'F35 noDeps excluded a requested module served from a differently named file', 'C10.R2'),
 ]
 
